@@ -47,6 +47,25 @@ if rc != 0:
     ck.finish({"evaluations": 1, "distinct_nontrivial": 0, "rule": "n/a", "samples": ["harness run failed"]})
 data = json.load(open(res))
 inproc, parse, cli = data["Inproc"] or [], data["Parse"] or [], data["Cli"] or []
+# runner stream: each analyzer set becomes one more "CLI-like" case (prediction from the comment texts, observation =
+# filterIgnored on what the real runner delivered); the serialised directives themselves join the parse stream
+runner_cases = data.get("Runner") or []
+runner_dir_diffs = []
+for k, rc_ in enumerate(runner_cases):
+    name = "run%d" % k
+    data["Configs"][name] = rc_["Allowed"]
+    data["Flags"][name] = "(real runner, analyzers registered: %s)" % rc_["Set"]
+    cli.append({"Config": name, "Show": True, "Variant": "runner", "Remap": "", "Base": rc_["Diags"] or [], "U": [],
+                "Dirs": rc_["Comments"] or [], "Out": rc_["Out"] or []})
+    got = {(d["DPos"]["File"], d["DPos"]["Line"]): d for d in rc_["Dirs"] or []}
+    for cm in rc_["Comments"] or []:
+        d = got.pop((cm["DPos"]["File"], cm["DPos"]["Line"]), None)
+        if d is None or d["NPos"]["Line"] != cm["NPos"]["Line"]:
+            runner_dir_diffs.append((rc_["Set"], cm["Text"], d))
+        else:
+            parse.append({"Text": cm["Text"], "Cmd": d["Cmd"], "Args": d["Args"]})
+    for d in got.values():
+        runner_dir_diffs.append((rc_["Set"], None, d))
 ck.log("harness done: %d triples, %d texts, %d CLI cases" % (len(inproc), len(parse), len(cli)))
 
 # ------------------------------------------------------------------ Gallina literals
@@ -346,12 +365,19 @@ for name, (rc, out) in sorted(results.items()):
 total = len(inproc) + len(cli)
 if n_in_class != total and not [v for v in ck.violations if v["key"] == "cases-eval"]:
     broken.append(("generator-class", "%d of %d generated cases are outside the restricted glob class (simple_glob)" % (total - n_in_class, total)))
-if nmis and not [v for v in ck.violations if not v["no_input"]]:
+KNOWN = load_known_findings().get("C10", {})
+def unexplained():
+    """violations with a concrete input that are not recorded findings"""
+    return [v for v in ck.violations if not v["no_input"] and v["key"] not in KNOWN]
+if runner_dir_diffs and not unexplained():
+    ck.violation("runner-directives", "the runner's serialised directives differ from the comments of the package (%d differences), e.g. %s" % (
+        len(runner_dir_diffs), runner_dir_diffs[0]), {"differences": runner_dir_diffs[:20]}, no_input=True)
+if nmis and not unexplained():
     # the property predicate holds on everything explored but the transcription of the code disagrees with the code
     kind, c = first_mismatch
     ck.violation("model-mismatch", "model and implementation disagree (%d cases, first in stream %s) although the property holds on all explored cases" % (nmis, kind),
                  {"first": c}, no_input=True)
-if broken and not ck.violations:
+if broken and not [v for v in ck.violations if v["key"] not in KNOWN]:
     ck.violation("obligation:" + broken[0][0], "proof obligation or tie no longer checks: %s" % broken[0][0], {"broken": broken}, no_input=True)
 
 # ------------------------------------------------------------------ coverage (measured)
@@ -378,6 +404,7 @@ ck.finish({
     "comment_texts": len(parse), "cli_cases": len(cli), "cli_variants": len({c["Variant"] for c in cli}),
     "cli_cases_with_line_remap_before_directive": sum(1 for c in cli if c.get("Remap") == "before"),
     "cli_cases_with_line_remap_control": sum(1 for c in cli if c.get("Remap") == "control"),
+    "runner_cases": [rc_["Set"] for rc_ in runner_cases], "runner_directive_differences": len(runner_dir_diffs),
     "cli_settings": data["Flags"], "in_restricted_class": n_in_class, "model_mismatches": nmis,
     "property_differences_by_key": seen_keys,
 })
